@@ -952,6 +952,73 @@ pub fn c10_linear(x: &str, cis: &[u8], base: &Cfg, ctx: &mut Ctx) {
     }
 }
 
+/// Continuations follow the bracket nesting (texts without anonymous routines and multi-line tokens,
+/// width unconstrained): a line that starts directly inside a bracket pair opened on an earlier line
+/// carries exactly one continuation more than the opener's line, a line that starts with the
+/// closing bracket carries the opener's line's count, and the levels are the same for both.
+/// levels / continuations per line are read from the tab runs at ci = 0 and ci = 1.
+pub fn c10_bracket_conts(x: &str, base: &Cfg, ctx: &mut Ctx) {
+    let mk = |ci: u8| {
+        base.with(|c| {
+            c.tabs = true;
+            c.ci = ci;
+            c.wrap = u32::MAX;
+        })
+    };
+    let (o0, o1) = (ctx.fmt(&mk(0), x), ctx.fmt(&mk(1), x));
+    let tabs = |o: &str| -> Vec<usize> { o.split('\n').map(|l| l.bytes().take_while(|c| *c == b'\t').count()).collect() };
+    let (t0, t1) = (tabs(&o0), tabs(&o1));
+    let case = || json!({"oracle": "c10_brackets", "input": x, "cfg": base});
+    if t0.len() != t1.len() || t0.iter().zip(&t1).any(|(a, b)| b < a) {
+        ctx.fail("C10", "line-structure-depends-on-continuation-indents", format!("{} vs {} lines at ci 0 / 1", t0.len(), t1.len()), case());
+        return;
+    }
+    let toks = r::scan(&o1);
+    if toks.iter().any(|t| t.text(&o1).contains('\n')) {
+        ctx.count("c10_brackets.skipped-multi-line-token");
+        return;
+    }
+    let line_of = |pos: usize| o1[..pos].matches('\n').count();
+    // stack of opener lines
+    let mut stack: Vec<usize> = vec![];
+    let mut prev_line = usize::MAX;
+    for t in &toks {
+        if t.kind == Kind::Eof {
+            break;
+        }
+        let line = line_of(t.start);
+        let first_on_line = line != prev_line;
+        prev_line = line;
+        let closes = matches!(t.kind, Kind::Op(r::Op::RParen | r::Op::RBrack));
+        if first_on_line && !t.is_comment() {
+            if let Some(&open_line) = stack.last() {
+                if open_line < line {
+                    let (lv, ct) = (t0[line], t1[line] - t0[line]);
+                    let (olv, oct) = (t0[open_line], t1[open_line] - t0[open_line]);
+                    let want = if closes { oct } else { oct + 1 };
+                    if lv != olv || ct != want {
+                        ctx.fail(
+                            "C10",
+                            "continuations-do-not-follow-bracket-nesting",
+                            format!("line {}: {lv} levels + {ct} continuations, the bracket was opened on line {} with {olv} levels + {oct} continuations", line + 1, open_line + 1),
+                            case(),
+                        );
+                        return;
+                    }
+                }
+            }
+        }
+        match t.kind {
+            Kind::Op(r::Op::LParen | r::Op::LBrack) => stack.push(line),
+            Kind::Op(r::Op::RParen | r::Op::RBrack) => {
+                stack.pop();
+            }
+            _ => {}
+        }
+    }
+    ctx.nontrivial();
+}
+
 /// indentation = levels x unit + continuations x min(255, ci x tw) in space mode, for every (tw, ci)
 /// including the saturating ones; levels and continuations per line are read from the tab runs at
 /// ci = 0 and ci = 1 (with the width unconstrained the line structure does not depend on them)
